@@ -53,6 +53,24 @@ def run(rep: core.Report):
     i_for = [i for i, s in enumerate(topd) if s.get("kind") == "ForStmt" and "adrsT" in str([cast.text(x) for x in cast.walk(s) if x.get("kind") == "BinaryOperator" and x.get("opcode") == "="][:6])]
     rep.instance("R03a", DDM, "ddm_get_derivative_dynmat_at_q", "symmetrisation loop follows the use_openmp twin at top level", bool(i_if) and bool(i_for) and i_if[0] < i_for[0],
                  "the derivative of the dynamical matrix is no longer symmetrised after both arms", line=tud.line(fd))
+    # coverage of the symmetrisation nest: for every Cartesian component every pair (row, column) -- or its transpose -- is visited
+    if i_for:
+        nest = topd[i_for[0]]
+        sd = cidx.Analyzer([tud]).summary("ddm_get_derivative_dynmat_at_q")
+        inner = [(v, lo, hi, line) for v, lo, hi, line, par in sd.loops if line >= tud.line(nest)]
+        comp = [x for x in inner if str(x[2]) == "3"]
+        rows = [x for x in inner if str(x[2]) != "3"]
+        ok_cov = len(comp) == 1 and len(rows) == 2 and str(comp[0][1]) == "0"
+        why = ""
+        if ok_cov:
+            (v1, lo1, hi1, _), (v2, lo2, hi2, _) = rows
+            full = sp.expand(hi1 - hi2) == 0 and str(hi1).replace(" ", "") == "3*num_patom"
+            lo1s, lo2s = str(lo1), str(lo2)
+            # outer row loop from 0; inner column loop from 0 or from the row (triangular)
+            ok_cov = full and lo1s == "0" and (lo2s == "0" or lo2s.split("@")[0] == str(v1))
+            why = f"row loop '{v1}' from {lo1s.split('@')[0]}, column loop '{v2}' from {lo2s.split('@')[0]}, both to {hi1}"
+        rep.instance("R03a", DDM, "ddm_get_derivative_dynmat_at_q", f"symmetrisation visits every pair of every component ({why})", ok_cov,
+                     f"the symmetrisation nest does not visit every (row, column) pair of each of the three components ({why}): some elements of dD/dq stay as computed and are not Hermitian for force constants without permutation symmetry, unlike the Python reference and unlike D(q) itself", line=tud.line(nest))
     # Python reference
     pf = core.find_def(PYDM, "DynamicalMatrix._run_py_dynamical_matrix")
     stores = [s for s in ast.walk(pf) if isinstance(s, ast.Assign) and core.src(s.targets[0]) == "self._dynamical_matrix"]
@@ -184,5 +202,7 @@ def selftest():
     b("time-reversal half untransposed", SYMF, "            reciprocal_rotations += [-rot.T for rot in ptg_ops]", "            reciprocal_rotations += [-rot for rot in ptg_ops]", "R03d", "get_pointgroup_operations")
     b("direct half untransposed", SYMF, "    reciprocal_rotations = [rot.T for rot in ptg_ops]", "    reciprocal_rotations = [rot for rot in ptg_ops]", "R03d", "get_pointgroup_operations")
     V.append(dict(name="time-reversal half with np.transpose", kind="neutral", file=SYMF, old="            reciprocal_rotations += [-rot.T for rot in ptg_ops]", new="            reciprocal_rotations += [-np.transpose(rot) for rot in ptg_ops]"))
+    b("derivative symmetrisation starts at the component index", DDM, "        for (j = 0; j < num_patom * 3; j++) {\n            for (k = 0; k < num_patom * 3; k++) {\n                adrs = i * num_patom * num_patom * 9", "        for (j = i; j < num_patom * 3; j++) {\n            for (k = 0; k < num_patom * 3; k++) {\n                adrs = i * num_patom * num_patom * 9", "R03a", "visits every pair")
+    V.append(dict(name="derivative symmetrisation over the upper triangle", kind="neutral", file=DDM, old="            for (k = 0; k < num_patom * 3; k++) {\n                adrs = i * num_patom * num_patom * 9", new="            for (k = j; k < num_patom * 3; k++) {\n                adrs = i * num_patom * num_patom * 9"))
     b("unit cell masses not updated", API, "        self._unitcell.set_masses(u_masses)\n", "", "R03c", "set_masses")
     return V
